@@ -273,6 +273,7 @@ type verifC39World struct {
 	cleaned   bool
 
 	nPreWrites, nDeltaWrites, nFenced, nDoneWrites, nDup, nDupInBatch, nDupAfterSwitch, nLive, nLiveDropped int
+	nBurst                                                                                                          int
 	nPump, nRestartT, nRestartS, nOrchRestart, nMisPre, nMisPost, nReFence, nAck, nDupAck, nCtl, nDupAfterRestart int
 	sinceRestartT                                                                                                   bool
 	log                                                                                                             []string
@@ -484,7 +485,9 @@ func (w *verifC39World) pump(k int, dups []int, repeatFirst ...int) bool {
 	}
 	// the same new delta again later in the same batch (after the rows that follow it)
 	for _, r := range repeatFirst {
-		if len(positions) > 0 {
+		if r < 0 && len(positions)+r >= 0 { // counted from the end of the listing
+			batch = append(batch, positions[len(positions)+r])
+		} else if r >= 0 && len(positions) > 0 {
 			batch = append(batch, positions[r%len(positions)])
 		}
 	}
@@ -511,7 +514,39 @@ func (w *verifC39World) appliedPositions() []int {
 func (w *verifC39World) actWriteH(rt *rapid.T) {
 	w.rt = rt
 	w.serial++
-	wr := verifC39GenWrite(rt, w.serial)
+	w.writeH(rt, verifC39GenWrite(rt, w.serial), rapid.Bool().Draw(rt, "liveForward"))
+}
+
+// actBurst: several delta-phase writes to the SAME key with different values,
+// none delivered live, then one replay batch that carries the first of them
+// again at its end (a retry inside one batch must not overtake newer deltas).
+func (w *verifC39World) actBurst(rt *rapid.T) {
+	w.rt = rt
+	if w.phase != 1 {
+		rt.Skip()
+	}
+	kind := rapid.IntRange(0, 2).Draw(rt, "burstKind")
+	uid := rapid.SampledFrom(verifC39UIDs).Draw(rt, "burstUID")
+	ch := rapid.SampledFrom(verifC39Chans).Draw(rt, "burstCh")
+	n := rapid.IntRange(2, 3).Draw(rt, "burstN")
+	for i := 0; i < n; i++ {
+		w.serial++
+		var wr verifC39Write
+		switch kind {
+		case 0:
+			wr = verifC39Write{kind: "user", user: metadb.User{UID: uid, Token: fmt.Sprintf("tok-%d", w.serial), DeviceFlag: int64(i)}}
+		case 1:
+			wr = verifC39Write{kind: "channel", ch: metadb.Channel{ChannelID: ch, ChannelType: verifC39ChType, Ban: int64(w.serial), Large: int64(i % 2)}}
+		default:
+			wr = verifC39Write{kind: []string{"addSubs", "removeSubs"}[i%2], chID: ch, uids: []string{uid}}
+		}
+		w.writeH(rt, wr, false)
+	}
+	w.nBurst++
+	w.pump(8, nil, -n)
+}
+
+func (w *verifC39World) writeH(rt *rapid.T, wr verifC39Write, live bool) {
 	if w.phase == 3 {
 		// the target owns the hash slot now
 		w.tIdx++
@@ -526,7 +561,6 @@ func (w *verifC39World) actWriteH(rt *rapid.T) {
 		w.checkEqual("after write at the new owner", w.dbT, verifC39H, w.model)
 		return
 	}
-	live := rapid.Bool().Draw(rt, "liveForward")
 	before := verifC39ReadHS(rt, w.dbS, verifC39H)
 	res, err := w.srcApply(verifC39H, wr.encode())
 	if err != nil {
@@ -956,6 +990,7 @@ func TestVerifC39Migration(t *testing.T) {
 			"restartTarget": w.actRestartTarget,
 			"restartSource": w.actRestartSource,
 			"reFence":       w.actReFence,
+			"burst":         w.actBurst,
 		})
 		dupsBeforeFinish, dupsAfterSwitch := w.nDup, w.nDupAfterSwitch
 		w.finish(rt)
@@ -974,6 +1009,7 @@ func TestVerifC39Migration(t *testing.T) {
 		k.LabelIf(w.nPump > 0, "outbox replay delivered rows")
 		k.LabelIf(dupsBeforeFinish > 0, "duplicate deltas delivered (besides the final replay)")
 		k.LabelIf(w.nDupInBatch > 0, "same delta twice in one batch")
+		k.LabelIf(w.nBurst > 0, "same-key burst replayed with an in-batch retry of its first delta")
 		k.LabelIf(w.nDupAfterRestart > 0, "duplicate delta after a target restart")
 		k.LabelIf(dupsAfterSwitch > 0, "duplicate delta after the switch (besides the final replay)")
 		k.LabelIf(w.nOrchRestart > 0, "orchestrator restart (cursor back to last ack)")
